@@ -148,6 +148,7 @@ void alloc_heap_shuffle(uint64_t seed) {
 namespace {
 const size_t HDR = 16;
 inline void *sim_alloc(size_t size, bool nothrow) {
+    sim::alloc_yield_hook(); // C18: an allocation inside library code is a point where another thread may run
     sim::BudgetState &b = sim::budget_state();
     if (b.armed) {
         uint64_t live = static_cast<uint64_t>(sim::t_live > 0 ? sim::t_live : 0);
